@@ -5,28 +5,8 @@ Import ListNotations.
 Open Scope string_scope.
 Open Scope list_scope.
 
-Lemma forallb_In {A} (f : A -> bool) l x : forallb f l = true -> In x l -> f x = true.
-Proof. intros H Hx. exact (proj1 (forallb_forall f l) H x Hx). Qed.
-
-Ltac fa H x Hx := let H' := fresh in pose proof (forallb_In _ _ x H Hx) as H'; cbv beta in H'; clear H; rename H' into H.
-
 Lemma prec_all_ok : prec_all = true.
-Proof. vm_compute. reflexivity. Qed.
-
-Lemma prec_forall cls p k src nested n :
-  In cls public_classes -> In (p, k, false) (sleaves (class_schema cls)) -> prec_leaf k p = true ->
-  shadowed (class_schema cls) p = false -> In src all_sources -> In (nested, n) prec_variants ->
-  prec_holds cls p (sv k 0) (sv k 1) (sv k 2) (sv k 3) src nested n = true.
-Proof.
-  intros H1 H2 Hl Hs H3 H4. pose proof prec_all_ok as H. unfold prec_all in H.
-  fa H cls H1. fa H (p, k, false) H2.
-  apply orb_prop in H. destruct H as [Hc|H]; [apply orb_prop in Hc; destruct Hc as [Hc|Hc];
-                                              [apply orb_prop in Hc; destruct Hc as [Hc|Hc]|]|].
-  - assert (X : negb (prec_leaf k p) = true) by exact Hc. rewrite Hl in X. discriminate X.
-  - discriminate Hc.
-  - assert (X : shadowed (class_schema cls) p = true) by exact Hc. rewrite Hs in X. discriminate X.
-  - fa H src H3. fa H (nested, n) H4. exact H.
-Qed.
+Proof. vm_cast_no_check (eq_refl true). Qed.
 
 (* show(cuboid, style_magnetization_arrow_size=2) on a cuboid whose arrow size was set to 0.5: resolves to 0.5 *)
 Lemma prec_alias_witness :
